@@ -31,7 +31,11 @@ static std::string predSM(Rng& r, Out& out, std::string& caseLine) {
     bool na, nb; int a[4], b[4]; box(na, a); box(nb, b); if (r.chance(15)) { nb = na; for (int i = 0; i < 4; i++) b[i] = a[i]; }
     Envelope ea = na ? Envelope() : Envelope(a[0], a[1], a[2], a[3]); Envelope eb = nb ? Envelope() : Envelope(b[0], b[1], b[2], b[3]);
     auto st = [&]() -> char { return p->isKnown() ? (p->value() ? 't' : 'f') : 'u'; };
+    // requirement flags (requireCovers(A) requireCovers(B) requireExteriorCheck(A) requireExteriorCheck(B) requireInteraction), then the trace
     std::string trace;
+    trace += p->requireCovers(true) ? '1' : '0'; trace += p->requireCovers(false) ? '1' : '0';
+    trace += p->requireExteriorCheck(true) ? '1' : '0'; trace += p->requireExteriorCheck(false) ? '1' : '0';
+    trace += p->requireInteraction() ? '1' : '0'; trace += ' ';
     p->init(dA, dB); trace += st();
     p->init(ea, eb); trace += st();
     int n = r.range(0, 9);
